@@ -492,3 +492,15 @@ def anagram(spec, choice, mode=0):
         ks[path[0]] = rebuild(ks[path[0]], path[1:])
         return with_kids(s, ks)
     return rebuild(spec, target), True
+
+
+def safe_repr(v):
+    """For reports only: the object's own repr may be what is broken."""
+    try:
+        return repr(v)
+    except Exception as e:
+        from . import peg
+        try:
+            return '%s (repr raises %s)' % (peg.canon(v), type(e).__name__)
+        except Exception:
+            return '<unprintable: repr raises %s>' % type(e).__name__
